@@ -13,8 +13,8 @@
   * The generic error bound `2⁻¹⁵·max(1,|Q(p)|)` of the abstract default loop lives in
     `Statrs.Lemmas.Bisect` (`bisect_bound`, for an arbitrary `F : ℝ → ℝ`).  It is instantiated here for
     the families whose generated `inverse_cdf` still IS the default loop (`X.inverse_cdf.loop1/3/5`):
-    Chi and InverseGamma (`chi_inverse_cdf_bisect_bound_rel`, `inverse_gamma_inverse_cdf_bisect_bound_rel`,
-    relative to `Q` being the `p`-quantile of the family's abstract-special-function cdf).
+    InverseGamma (`inverse_gamma_inverse_cdf_bisect_bound_rel`, relative to `Q` being the `p`-quantile of the
+    family's abstract-special-function cdf); for Chi only the identity with the abstract loop is kept (see below).
 -/
 import Statrs.Real.Simp
 import Statrs.Lemmas.Bisect
@@ -196,16 +196,13 @@ theorem chi_inverse_cdf_eq_bisect (d : Chi) (p : ℝ) :
         | hang => rfl
         | done t => obtain ⟨h, l, i⟩ := t; rfl
 
-/-- Chi (trait-default bisection), relative to `Q` being the `p`-quantile of the model's cdf
-    (`IsQuantile`: cdf `< p` below `Q`, `≥ p` from `Q` on, `> p` above `Q`): for `p ∈ (0,1)` and
-    `|Q| ≤ 2^1024` (any finite `f64`; keeps the doubling loops within their fuel) the result is within
-    `2⁻¹⁵·max(1,|Q|)` of `Q`. -/
-theorem chi_inverse_cdf_bisect_bound_rel (d : Chi) (p Q : ℝ)
-    (hQ : Lemmas.Bisect.IsQuantile (Chi.cdf (α := ℝ) d) p Q) (hQb : |Q| ≤ 2 ^ 1024)
-    (hp0 : 0 < p) (hp1 : p < 1) :
-    |Chi.inverse_cdf d p - Q| ≤ 2⁻¹ ^ 15 * max 1 |Q| := by
-  rw [chi_inverse_cdf_eq_bisect]
-  exact Lemmas.Bisect.bisect_bound hQ _ _ hp0.ne' hp1.ne hQb
+/- The instantiation of the error bound for Chi (`chi_inverse_cdf_bisect_bound_rel`, relative to
+   `IsQuantile (Chi.cdf d) p Q`) was REMOVED: the premise audit proved that premise unsatisfiable for the true
+   special functions (`Props/Common/Witnesses_4.lean`: `chi_isQuantile_unsatisfiable_true` — over ℝ the
+   generated `Chi.cdf d 0` takes the `x == ∞` branch because `RFun.inf = 0` is junk there), so the theorem
+   was vacuous.  What remains for Chi is the structural identity `chi_inverse_cdf_eq_bisect` (the generated
+   quantile IS the abstract default loop, to which `Lemmas.Bisect.bisect_bound` applies for any cdf with a
+   quantile); the InverseGamma twin below is non-vacuous (`inverseGamma_isQuantile_witness`). -/
 
 /-! ### InverseGamma -/
 
